@@ -85,6 +85,7 @@ INT = "internal"
 
 PROPS["C09"] = {
     "level": "exploration",
+    "with": ["C11"],  # the fake server process / fake client of the C11 harness (ServerResponse unit)
     "rule": ("0-6 generated ClientCompatResponse messages (0 B - 70 kB, protoreflect-driven generator) encoded by the repo's encoders or an independent 6-line encoder, "
              "served through a reader whose Read boundaries are drawn by construction (1-byte reads, cut inside a 4-byte prefix, cut at the prefix/payload boundary, reads spanning frames, "
              "zero-byte reads, data returned together with EOF), optionally truncated inside a prefix / inside a payload / at a frame boundary; binary via ReadDelimitedMessage and via NewCodec(false), JSON via NewCodec(true); "
@@ -103,6 +104,8 @@ PROPS["C09"] = {
         {"name": "C09Stall", "pkg": INT, "test": "TestVerifC09Stall", "kind": "rapid",
          "checks": {"quick": 150, "thorough": 1500}, "shards": {"quick": 2, "thorough": 8}},
         # arbitrary bytes x read partition against a reference parser (coverage-guided)
+        # the server's start response through the batch runner at the size limit, in several chunkings (C11 fakes)
+        {"name": "C09ServerResponse", "pkg": CC, "test": "TestVerifC09ServerResponse", "kind": "enum"},
         {"name": "C09Fuzz", "pkg": INT, "test": "FuzzVerifC09Stream", "kind": "fuzz", "fuzz_target": "FuzzVerifC09Stream",
          "only_tiers": ["thorough"], "fuzztime": {"thorough": "60s"}, "workers": 16, "timeout": {"thorough": 600}},
     ],
@@ -379,6 +382,7 @@ PROPS["C11"] = {
         # real in-process controller, server slow or unwilling to stop
         {"name": "C11InProcess", "pkg": CC, "test": "TestVerifC11InProcess", "kind": "enum", "timeout": 120},
         {"name": "C11Printer", "pkg": CC, "test": "TestVerifC11Printer", "kind": "enum"},
+        {"name": "C11ResponseSize", "pkg": CC, "test": "TestVerifC11ResponseSize", "kind": "enum"},
         # peers that are OS processes (runCommand) and go away while the runner still writes to them
         {"name": "C11OSPeers", "pkg": CC, "test": "TestVerifC11OSPeers", "kind": "enum", "timeout": 900},
         {"name": "C11Batch", "pkg": CC, "test": "TestVerifC11Batch", "kind": "rapid", "race": {"quick": False, "thorough": True},
